@@ -145,6 +145,7 @@ func main() {
 		t := simrt.NewTape(rs)
 		rc := &core.RunCtx{T: t, Tier: *tier, Config: *config, Idx: idx, Race: *race}
 		res := h.Run(rc)
+		recorded := t.Recorded() // before any shrinking reuses the tape buffer
 		agg.Runs++
 		agg.NextIdx = idx + *stride
 		if detf != nil {
@@ -205,7 +206,7 @@ func main() {
 				continue
 			}
 			rp := core.Replay{Property: v.Property, Harness: *harness, Config: *config, Tier: *tier, Race: *race, Seed: *seed, Idx: idx,
-				Tape: t.Recorded(), Violation: v, Sample: res.Sample, Trace: res.Trace}
+				Tape: recorded, Violation: v, Sample: res.Sample, Trace: res.Trace}
 			if !*race {
 				shrink(h, rc, &rp, *shrinkSec)
 			}
